@@ -59,7 +59,8 @@ def run(tier):
     # scanner model tie: gocc's hand-written scanner vs Gocc.fscan on the (re)spelled texts and on random byte strings
     texts = [t for t in list(nontrivial)[:200]]
     frag = [b"a", b"!x", b"_r", b"Abc", b"'a'", b"'\\n'", b"'\\x41'", b"'\\u00e9'", b"'ab'", b"\"s\"", b"`r`", b"<< x >>", b"<<", b">>", b"/*", b"*/", b"//", b"\n", b" ", b"\t", b"\r",
-            b":", b";", b"|", b"-", b"(", b")", b"[", b"]", b"{", b"}", b".", b",", b"<", b"<=", b"/", b"\\", b"'", b"\"", b"`", b"\x00", b"\xff", b"\xc2\xa7", b"0", b"9", b"import", b"//line f:7\n"]
+            b":", b";", b"|", b"-", b"(", b")", b"[", b"]", b"{", b"}", b".", b",", b"<", b"<=", b"/", b"\\", b"'", b"\"", b"`", b"\x00", b"\xff", b"\xc2\xa7", b"0", b"9", b"import", b"//line f:7\n",
+            b"*", b"**/", b"/**", b"/***", b"\x80", b"\x81", b"\xbf", b"\xc0", b"\xe2\x82", b"\x7f", b"P", b"\x50"]
     for _ in range(600 if tier == "quick" else 30000):
         texts.append(b"".join(ck.rng.choice(frag) for _ in range(ck.rng.randint(0, 14))))
     slines = ["fescan " + " ".join(map(str, t)) for t in texts]
